@@ -242,6 +242,39 @@ func c18WKT(c *fw.Ctx, idx int) {
 		c.Fail("encoder-differs", "an Encoder with %d digits used before gave err=%v and %s, wkt.Marshal gave %s", d, err, clipStr(text2, 300), clipStr(text, 300))
 		return
 	}
+	// the digits option given more than once (a caller's defaults followed by an
+	// override): the output is that of one of the values asked for - as the code
+	// stands the last one - never a mixture of both
+	if r.Chance(1, 3) {
+		d1 := r.Range(-1, 15)
+		var first, both string
+		var e1, e2 error
+		if c.Guard("panic", func() {
+			first, e1 = wkt.Marshal(t, wkt.EncodeOptionWithMaxDecimalDigits(d1))
+			both, e2 = wkt.Marshal(t, wkt.EncodeOptionWithMaxDecimalDigits(d1), wkt.EncodeOptionWithMaxDecimalDigits(d))
+		}) {
+			return
+		}
+		c.Eval(2)
+		c.Count("digits_option_given_twice")
+		if e1 != nil || e2 != nil || (both != text && both != first) {
+			c.Fail("option-sequence", "digits options %d then %d: err=%v/%v, output %s is neither the %d-digit output %s nor the %d-digit output %s", d1, d, e1, e2, clipStr(both, 200), d, clipStr(text, 200), d1, clipStr(first, 200))
+			return
+		}
+		// and the other way round, ending with the default (no limit)
+		var rev, plain string
+		if c.Guard("panic", func() {
+			plain, e1 = wkt.Marshal(t)
+			rev, e2 = wkt.Marshal(t, wkt.EncodeOptionWithMaxDecimalDigits(d), wkt.EncodeOptionWithMaxDecimalDigits(-1))
+		}) {
+			return
+		}
+		c.Eval(2)
+		if e1 != nil || e2 != nil || (rev != text && rev != plain) {
+			c.Fail("option-sequence", "digits options %d then -1: err=%v/%v, output %s is neither the %d-digit output %s nor the unlimited output %s", d, e1, e2, clipStr(rev, 200), d, clipStr(text, 200), clipStr(plain, 200))
+			return
+		}
+	}
 	c.SetInput(map[string]any{"format": "wkt", "digits": d, "geometry": g.String(), "output": clipStr(text, 600)})
 	ords := flattenOrdinates(g)
 	toks := wktNumberTokens(text)
@@ -342,6 +375,29 @@ func c18GeoJSON(c *fw.Ctx, idx int) {
 	if string(a) != string(b) {
 		c.Fail("option-order", "the two option orders give different output: %s vs %s", clipStr(string(a), 200), clipStr(string(b), 200))
 		return
+	}
+	if r.Chance(1, 3) {
+		// the digits option given twice: the output of one of the two values, not a mixture
+		d1 := r.Range(0, 15)
+		o1 := geojson.EncodeGeometryWithMaxDecimalDigits(d1)
+		optsC := append([]geojson.EncodeGeometryOption{o1}, optsA...)
+		optsD := append([]geojson.EncodeGeometryOption{}, optsA[1:]...)
+		optsD = append(optsD, o1)
+		var both, first []byte
+		var e1, e2 error
+		if c.Guard("panic", func() { both, e1 = geojson.Marshal(t, optsC...); first, e2 = geojson.Marshal(t, optsD...) }) {
+			return
+		}
+		c.Eval(2)
+		c.Count("digits_option_given_twice")
+		if e1 != nil && e2 == nil {
+			// as the code stands the second wrapper cannot marshal the first one and
+			// geojson.Marshal reports an error: no output, so nothing to judge
+			c.Count("digits_option_given_twice_rejected_with_an_error")
+		} else if e1 != nil || e2 != nil || (string(both) != heldA && string(both) != string(first)) {
+			c.Fail("option-sequence", "digits options %d then %d: err=%v/%v, output %s is neither the %d-digit output %s nor the %d-digit output %s", d1, d, e1, e2, clipStr(string(both), 200), d, clipStr(heldA, 200), d1, clipStr(string(first), 200))
+			return
+		}
 	}
 	tree, jerr := ref.ReadJSON(a)
 	if jerr != nil {
